@@ -601,3 +601,47 @@ pub fn stream_of(frames: &[Frame]) -> Vec<u8> {
     }
     s
 }
+
+/// Like [`receive`], but at every suspension point (`Pending`) asks `cancel()` whether to drop the
+/// receive future and start a fresh one. `suspensions` counts the suspension points met.
+pub fn receive_cancelling(
+    conn: &mut Connection<VSocket>,
+    target: Target,
+    cancel: &mut dyn FnMut() -> bool,
+    suspensions: &mut usize,
+    max_polls: usize,
+) -> Outcome {
+    macro_rules! drive {
+        ($mk:expr, $canon:expr) => {{
+            let mut polls = 0usize;
+            'outer: loop {
+                let fut = $mk;
+                let mut fut = core::pin::pin!(fut);
+                loop {
+                    polls += 1;
+                    if polls > max_polls {
+                        break 'outer Outcome::Stalled;
+                    }
+                    match vnet::poll_once(fut.as_mut()) {
+                        core::task::Poll::Ready(r) => break 'outer $canon(r),
+                        core::task::Poll::Pending => {
+                            *suspensions += 1;
+                            if cancel() {
+                                continue 'outer; // drops `fut`
+                            }
+                        }
+                    }
+                }
+            }
+        }};
+    }
+    match target {
+        Target::CallA => drive!(conn.receive_call::<MA<'_>>(), canon_call_result),
+        Target::CallValue => drive!(conn.receive_call::<Value>(), canon_call_result),
+        Target::CallStrict => drive!(conn.receive_call::<MStrict>(), canon_call_result),
+        Target::ReplyStrictA => drive!(conn.receive_reply::<PStrict, EA>(), canon_reply_result),
+        Target::ReplyBorrowB => {
+            drive!(conn.receive_reply::<PBorrow<'_>, EB<'_>>(), canon_reply_result)
+        }
+    }
+}
